@@ -38,6 +38,10 @@ LL = 'lattice_lib'
 
 
 def run(prog, res):
+  from ..rules import hashkeys
+  for q in ('lattice_lib.project_by_dykstra',):
+    hashkeys.check_function(prog, res, prog.function(q))
+  res.floor('T4', 8)
   affine_rules.check_partials(prog, res)
   affine_rules.check_hyperplane(prog, res)
   affine_rules.check_pwl_bounds(prog, res)
